@@ -19,6 +19,7 @@ import (
 	"time"
 
 	"github.com/idena-network/idena-go/blockchain/attachments"
+	"github.com/idena-network/idena-go/blockchain/fee"
 	"github.com/idena-network/idena-go/blockchain/types"
 	"github.com/idena-network/idena-go/common"
 	"github.com/idena-network/idena-go/config"
@@ -226,6 +227,7 @@ func c04run(c *hx.Ctx, cs c04case) error {
 				fail("C04:negative-component:"+negKind(d), fmt.Sprintf("after the transactions of block %d alone: %s", blk.Height(), d))
 			}
 		}
+		fpgBefore, nsBefore := n.App.State.FeePerGas(), n.App.ValidatorsCache.NetworkSize()
 		coll := newC04coll()
 		if err := func() (err error) {
 			defer func() {
@@ -295,6 +297,12 @@ func c04run(c *hx.Ctx, cs c04case) error {
 			if tx.Type == types.DeployContractTx || tx.Type == types.CallContractTx || tx.Type == types.TerminateContractTx {
 				if rc := n.Chain.GetReceipt(tx.Hash()); rc != nil {
 					c.Hit(fmt.Sprintf("contract-receipt:type-%d:success=%v", tx.Type, rc.Success))
+					// what the sender is charged (size fee + gas cost) stays within its max fee
+					if gc := rc.GasCost; gc != nil {
+						if paid := new(big.Int).Add(fee.CalculateFee(nsBefore, fpgBefore, tx), gc); paid.Cmp(tx.MaxFeeOrZero()) > 0 {
+							fail("C04:charged-fee-exceeds-max-fee", fmt.Sprintf("block %d: tx %s (type %d) is charged %s (gas used %d, gas cost %s), its max fee is %s", blk.Height(), tx.Hash().Hex(), tx.Type, paid, rc.GasUsed, gc, tx.MaxFeeOrZero()))
+						}
+					}
 					if a := attachments.ParseCallContractAttachment(tx); tx.Type == types.CallContractTx && a != nil {
 						c.Hit(fmt.Sprintf("contract-call:%s:success=%v", a.Method, rc.Success))
 					}
